@@ -1,0 +1,21 @@
+#ifndef VERIF_HOOKS_H
+#define VERIF_HOOKS_H
+/* verif_hooks.h */
+/*****************************************************************************/
+/* SPDX-License-Identifier: GPL-2.0-only OR GPL-3.0-only                     */
+/*                                                                           */
+/* Anchors for externally supplied loop contracts (static verification).     */
+/*                                                                           */
+/* VERIF_LOOP(name) stands between a loop header and its body.  In a normal  */
+/* build it expands to nothing.  When ASL_VERIF is defined, the verification */
+/* harness defines VERIF_LOOP_<name> (loop invariant, assigns and decreases  */
+/* clauses) before this header is seen.                                      */
+/*****************************************************************************/
+
+#ifdef ASL_VERIF
+#    define VERIF_LOOP(name) VERIF_LOOP_##name
+#else
+#    define VERIF_LOOP(name)
+#endif
+
+#endif /* VERIF_HOOKS_H */
